@@ -62,6 +62,11 @@ def gen_config(rng, tier, flavor="db"):
         if rng.random() < 0.04 and p >= 0 and q >= 0 and p != q:
             # clonal: everything from q
             tau[i] = [0, ploidy[q]]
+        if p >= 0 and p == q and rng.random() < 0.2:
+            # the same parent written in both columns but every copy handed down through ONE of them (a clone / unreduced
+            # gamete written as a selfing): (0, k) or (k, 0)
+            k = rng.randint(2, min(4, ploidy[p]))
+            tau[i] = [0, k] if rng.random() < 0.5 else [k, 0]
         while tau[i][0] + tau[i][1] > 6:
             k = 0 if tau[i][0] >= tau[i][1] else 1
             tau[i][k] -= 1
@@ -115,6 +120,7 @@ def gen_config(rng, tier, flavor="db"):
     cfg["flip_cols"] = [rng.random() < 0.3 for _ in range(ns)]
     # the API's default flat prior (frequencies=None) instead of an explicit flat vector
     cfg["freqs_none"] = cfg["freqs"] == "flat" and rng.random() < 0.5
+    cfg["refit"] = cfg["entry"] == "fit" and rng.random() < 0.25
     return cfg
 
 
@@ -215,11 +221,9 @@ class PedSim:
             ctx.counters.inc("individuals_relisted")
         self.lf = np.log(np.array(self.fl, dtype=np.float64))
         self.mp = int(self.ploidy.max())
-        # each sample's OWN positive-count reads, as known to the harness
-        self.own_reads = []
-        for i in range(self.ns):
-            idx = [r for r in range(self.counts.shape[1]) if self.counts[i, r] > 0]
-            self.own_reads.append((self.reads[i][idx].tolist(), [int(self.counts[i, r]) for r in idx], self.reads[i][idx], self.counts[i][idx]))
+        self.index_own_reads()
+        if any(self.parents[k, 0] >= 0 and self.parents[k, 0] == self.parents[k, 1] and 0 in (int(self.tau[k, 0]), int(self.tau[k, 1])) for k in range(self.ns)):
+            ctx.counters.inc("selfing_one_column")
         self.rng = SimRandom(ctx, adv_rate=cfg.get("adv_rate", 0.0))
         self.real = {}
         self.history = []
@@ -232,6 +236,13 @@ class PedSim:
         self.seen = set()
         self.last_verified = None
         self.zero_err = bool((self.err[self.parents >= 0] == 0).any()) if (self.parents >= 0).any() else False
+
+    def index_own_reads(self):
+        # each sample's OWN positive-count reads, as known to the harness
+        self.own_reads = []
+        for i in range(self.ns):
+            idx = [r for r in range(self.counts.shape[1]) if self.counts[i, r] > 0]
+            self.own_reads.append((self.reads[i][idx].tolist(), [int(self.counts[i, r]) for r in idx], self.reads[i][idx], self.counts[i][idx]))
 
     def viol(self, cls, msg, **detail):
         raise Violation(cls, msg, step=self.ctx.step, detail=detail)
@@ -333,6 +344,20 @@ class PedSim:
                     frequencies=None if cfg.get("freqs_none") else np.array(self.fl), steps=cfg["steps"], annealing=0, chains=cfg["chains"], random_seed=5,
                     step_type=cfg["step_type"], swap_parental_alleles=bool(cfg["swap"]))
                 trace = model.fit(self.reads, self.counts, initial=self.start_state(0))
+                if cfg.get("refit") and self.ns > 1:
+                    # the same model object fitted again to other reads of the same shape (every sample gets its neighbour's
+                    # reads): nothing - caches, states - may survive from the first fit
+                    perm = list(range(1, self.ns)) + [0]
+                    self.reads = self.reads[perm].copy()
+                    self.counts = self.counts[perm].copy()
+                    self.index_own_reads()
+                    self._llk.clear()
+                    self.seen.clear()
+                    del self.caches[:]
+                    del self.history[:]
+                    self.last_verified = None
+                    trace = model.fit(self.reads, self.counts, initial=self.start_state(0))
+                    self.ctx.counters.inc("refit_same_model")
                 self.result = ("fit", trace)
             else:
                 children = m["pmcmc"].sample_children_matrix(self.parents)
